@@ -66,6 +66,35 @@ func runVariants(p *Property, repo, vdir string, base *Ctx) []map[string]any {
 			baseBad[o.Rule+"|"+o.Key] = true
 		}
 	}
+	// files in which this property has obligations on the tree as it is: a refactor patch that
+	// touches none of them (and was not written for this property) is not re-evaluated for it here;
+	// tools/matrix.sh evaluates every patch for every property
+	anchored := map[string]bool{}
+	anchoredDirs := map[string]bool{}
+	for _, o := range base.Obls {
+		if i := strings.LastIndex(o.Pos, ":"); i > 0 {
+			f := o.Pos[:i]
+			anchored[f] = true
+			anchoredDirs[filepath.Dir(f)] = true
+		}
+	}
+	relevant := func(v Variant, files map[string]string) bool {
+		if !strings.HasPrefix(v.ID, "refactors/") || v.Expect != "silent" {
+			return true
+		}
+		if strings.Contains(v.ID, p.ID+"-") {
+			return true // written for this property
+		}
+		for f := range files {
+			if anchored[f] {
+				return true
+			}
+			if _, err := os.Stat(filepath.Join(repo, f)); err != nil && anchoredDirs[filepath.Dir(f)] {
+				return true // a new file in a package this property looks at
+			}
+		}
+		return false
+	}
 	exe, _ := os.Executable()
 	tmp, err := os.MkdirTemp("", "rdpgwlint-var")
 	if err != nil {
@@ -112,6 +141,10 @@ func runVariants(p *Property, repo, vdir string, base *Ctx) []map[string]any {
 		}
 		if !applicable {
 			res["outcome"] = "not-applicable (anchor text not present exactly once in the current tree)"
+			continue
+		}
+		if !relevant(v, files) {
+			res["outcome"] = "skipped: touches no file in which this property has an obligation (see refactors/TABLE.md for the full cross table)"
 			continue
 		}
 		wg.Add(1)
